@@ -163,11 +163,15 @@ class Universe:
     def casc_expunge(self):
         return self.has_o2m and self.cfg["cascade"] in ("all", "all_orphan")
 
+    def uniq(self, kind):
+        """classes that carry the UNIQUE columns code and (ga, gb)"""
+        return kind in ("Tag", "Node")
+
     def scalars(self, kind):
         return ["val", "extra"] if kind == "SubChild" else ["val"]
 
     def _build(self):
-        from sqlalchemy import Column, ForeignKey, Integer, String, Table
+        from sqlalchemy import Column, ForeignKey, Integer, String, Table, UniqueConstraint
         from sqlalchemy.orm import backref, registry, relationship
 
         cfg = self.cfg
@@ -188,6 +192,10 @@ class Universe:
                 uid = Column(Integer, nullable=False, unique=True)
                 val = Column(Integer)
                 parent_ref = Column(Integer, ForeignKey("node.id"))
+                code = Column(Integer, unique=True)  # single-column UNIQUE
+                ga = Column(Integer)
+                gb = Column(Integer)
+                __table_args__ = (UniqueConstraint("ga", "gb"),)  # composite UNIQUE
 
             kw = dict(cascade=cascade, collection_class=cc, order_by=Node.uid)
             if cfg["bidir"] == "backref":
@@ -252,6 +260,10 @@ class Universe:
                 id = Column(Integer, primary_key=True)
                 uid = Column(Integer, nullable=False, unique=True)
                 val = Column(Integer)
+                code = Column(Integer, unique=True)  # single-column UNIQUE
+                ga = Column(Integer)
+                gb = Column(Integer)
+                __table_args__ = (UniqueConstraint("ga", "gb"),)  # composite UNIQUE
 
             classes["Tag"] = Tag
             child_tag = Table(
@@ -315,11 +327,11 @@ def observe(dbapi_conn, U):
         rows = {}
         pk_of = {}
         if U.fam == "node":
-            data = cur.execute("SELECT id, uid, val, parent_ref FROM node").fetchall()
+            data = cur.execute("SELECT id, uid, val, parent_ref, code, ga, gb FROM node").fetchall()
             by_pk = {r[0]: r[1] for r in data}
             rows["Node"] = {}
-            for pk, uid, val, pref in data:
-                rows["Node"][uid] = {"cls": "Node", "val": val, "parent": _ref(by_pk, pref)}
+            for pk, uid, val, pref, code, ga, gb in data:
+                rows["Node"][uid] = {"cls": "Node", "val": val, "parent": _ref(by_pk, pref), "code": code, "ga": ga, "gb": gb}
                 pk_of[("Node", uid)] = pk
             return {"rows": rows, "pairs": []}, pk_of
         cfg = U.cfg
@@ -329,7 +341,7 @@ def observe(dbapi_conn, U):
         kindc = ", kind" if cfg["inh"] else ""
         cdata = cur.execute(f"SELECT id, uid, val, parent_ref{kindc} FROM child").fetchall()
         sdata = dict(cur.execute("SELECT id, extra FROM subchild").fetchall()) if cfg["inh"] else {}
-        tdata = cur.execute("SELECT id, uid, val FROM tag").fetchall()
+        tdata = cur.execute("SELECT id, uid, val, code, ga, gb FROM tag").fetchall()
         xdata = cur.execute("SELECT child_id, tag_id FROM child_tag").fetchall()
         p_by_pk = {r[0]: r[1] for r in pdata}
         c_by_pk = {r[0]: r[1] for r in cdata}
@@ -363,8 +375,8 @@ def observe(dbapi_conn, U):
         if stray:
             rows["Child"]["stray_subchild_rows"] = stray
         rows["Tag"] = {}
-        for pk, uid, val in tdata:
-            rows["Tag"][uid] = {"cls": "Tag", "val": val}
+        for pk, uid, val, code, ga, gb in tdata:
+            rows["Tag"][uid] = {"cls": "Tag", "val": val, "code": code, "ga": ga, "gb": gb}
             pk_of[("Tag", uid)] = pk
         pairs = sorted([_ref(c_by_pk, a), _ref(t_by_pk, b)] for a, b in xdata)
         return {"rows": rows, "pairs": pairs}, pk_of
@@ -569,6 +581,8 @@ class Model:
                     pass  # eligibility forbids deleting a referenced favourite
             if x.parent is not None and self.U.has_o2m:
                 x.ghost_of = x.parent
+            for t in x.tags:
+                t.stale = True  # t.items (if mapped and loaded) keeps the deleted object until expired
             x.parent = None
             x.tags = []
             x.fav = None
@@ -580,6 +594,9 @@ class Model:
     def _row_of(self, o, old):
         U = self.U
         row = {"cls": o.kind, "val": o.vals.get("val")}
+        if U.uniq(o.kind):
+            for k in ("code", "ga", "gb"):
+                row[k] = o.vals.get(k)
         if o.kind == "Parent":
             if U.cfg["natpk"]:
                 row["name"] = o.vals["name"]
@@ -648,6 +665,9 @@ class Model:
         if row is None:
             return
         o.vals["val"] = row["val"]
+        for k in ("code", "ga", "gb"):
+            if k in row:
+                o.vals[k] = row[k]
         if "name" in row:
             o.vals["name"] = row["name"]
         if o.kind == "SubChild":
@@ -745,7 +765,7 @@ def ops_strategy(codes, max_size=40, setup_codes=None, mid=("commit",)):
     )
 
 
-SETUP_CODES = ["new", "add", "append", "append", "setparent", "setparent", "tagadd", "tagadd", "fav", "set", "replace", "flush"]
+SETUP_CODES = ["new", "add", "append", "append", "setparent", "setparent", "tagadd", "tagadd", "fav", "set", "replace", "flush", "ucode"]
 
 
 class Interp:
@@ -786,7 +806,7 @@ class Interp:
         self.scope_children = []  # per open savepoint: children whose collection membership changed (one-directional o2m)
         self.scope_kinds = []  # per open savepoint: generic kinds of operations done inside it
         self.rich_rollback = False  # a savepoint at depth>=2 holding add+delete+modify was rolled back
-        self.integrity_is_violation = False  # C31: an IntegrityError from a flush is the violation itself
+        self.integrity_is_violation = True  # an IntegrityError from a flush of a model-valid state is the violation itself
         self.on_flush = None  # callback(kinds, mappers) at every flush (C31 statistics)
         self.op_no = 0
         self.boundary_at = 0  # index of the first op of the open transaction (C32 re-runs from here)
@@ -860,6 +880,15 @@ class Interp:
         log = self.model.keyswitch_log
         for idx in log[self._ks_consumed:]:
             self.ks_depth[idx] = depth
+            if self.U.cfg.get("natpk") == "passive":
+                # ON UPDATE CASCADE changed the children's rows; the unit of work refreshes the foreign-key attribute only of
+                # children in a *loaded* collection (documented for passive_updates=True): the program expires the rest
+                holder = self.model.objs[idx]
+                for ch in self.model.children_of(holder):
+                    d = ch.real.__dict__ if ch.state == "S" else {}
+                    if "parent_ref" in d and d["parent_ref"] != holder.vals["name"]:
+                        self.session.expire(ch.real, ["parent_ref"])
+                        self.ctx.info("stale FK attribute after ON UPDATE CASCADE expired by the program")
             if depth >= 1:
                 self.classes.add("pk-switch-flushed-inside-savepoint")
         self._ks_consumed = len(log)
@@ -935,11 +964,14 @@ class Interp:
         self.nobjs_at_boundary = len(self.model.objs)
         self.name_ctr_at_boundary = self.model.name_ctr
 
-    def op_new(self, a, b, c):
+    CODES = [1, 2, 3, 4, 5]
+    PAIRS = [(1, 1), (1, 2), (2, 1), (2, 2)]
+
+    def room(self):
+        return len(self.model.objs) - len(self.reuse_slots or ()) < self.MAX_OBJS
+
+    def _create(self, kind, b, c, add, name=None, uniq=None):
         m = self.model
-        if len(m.objs) - len(self.reuse_slots or ()) >= self.MAX_OBJS:
-            return False
-        kind = self.U.kinds[a % len(self.U.kinds)]
         idx = self.reuse_slots.pop(0) if self.reuse_slots else len(m.objs)
         o = MObj(idx, kind, 100 + idx)
         o.vals["val"] = VALS[b % len(VALS)]
@@ -948,17 +980,144 @@ class Interp:
             o.vals["extra"] = VALS[(b + c) % len(VALS)]
             kw["extra"] = o.vals["extra"]
         if kind == "Parent" and self.U.cfg["natpk"]:
-            m.name_ctr += 1
-            o.vals["name"] = f"k{m.name_ctr}"
-            kw["name"] = o.vals["name"]
+            if name is None:
+                m.name_ctr += 1
+                name = f"k{m.name_ctr}"
+            o.vals["name"] = name
+            kw["name"] = name
+        if self.U.uniq(kind):
+            o.vals.update(code=None, ga=None, gb=None)
+            o.state = "P" if add else "T"  # (for the eligibility rule below; m_add sets it for real)
+            vals = dict(uniq or {})
+            if add and uniq is None:
+                # objects that go straight into the session start with unique values where some are free
+                cv = next((v for v in self.CODES[b % 5:] + self.CODES[: b % 5] if self._uniq_ok(o, "code", v)), None)
+                pv = next((v for v in self.PAIRS[c % 4:] + self.PAIRS[: c % 4] if self._uniq_ok(o, "pair", v)), None)
+                if cv is not None and b % 3:
+                    vals["code"] = cv
+                if pv is not None and c % 3 == 0:
+                    vals["ga"], vals["gb"] = pv
+            o.state = "T"
+            o.vals.update(vals)
+            kw.update(vals)
         o.real = self.U.classes[kind](**kw)
         if idx < len(m.objs):
             m.objs[idx] = o
         else:
             m.objs.append(o)
-        if c % 2 == 0:
+        if add:
             self._add(o)
+        return o
+
+    def op_new(self, a, b, c):
+        if not self.room():
+            return False
+        self._create(self.U.kinds[a % len(self.U.kinds)], b, c, c % 2 == 0)
         return True
+
+    # ---- UNIQUE columns: code, (ga, gb); and the natural primary key
+    def _uval(self, vals, attr):
+        if attr == "pair":
+            return None if vals.get("ga") is None or vals.get("gb") is None else (vals["ga"], vals["gb"])
+        return vals.get(attr)
+
+    def _uniq_ok(self, x, attr, value):
+        """may x (same table as the other holders) take ``value`` for the unique key ``attr`` ("code", "pair", "name") so that
+        the next flush is valid *in the order the unit of work documents*: per table UPDATEs, then INSERTs, DELETEs last.
+        => nobody else holds it in memory; if a row still holds it in the database, that row belongs to a persistent,
+        not-deleted object that has given it up in memory (UPDATE first) and x is pending (INSERT afterwards)."""
+        if value is None:
+            return True
+        m, root = self.model, self.U.root(x.kind)
+        for z in m.objs:
+            if z is x or z.dead or self.U.root(z.kind) != root or z.state not in "TPSDX":
+                continue
+            if self._uval(z.vals, attr) == value:
+                return False
+        for (r, uid), row in m.rows.items():
+            if r != root or uid == x.uid or self._uval(row, attr) != value:
+                continue
+            y = m.by_uid(root, uid)
+            if y is None or y.dead or y.state != "S" or x.state != "P":
+                return False
+            if self.U.fam == "node":
+                # a self-referential mapper is flushed state by state in dependency order; UPDATE-before-INSERT is
+                # only what the unit of work does inside one per-mapper save batch: not generated here
+                return False
+            return "handover"
+        return True
+
+    def _set_uniq(self, o, attr, value):
+        if attr == "pair":
+            ga, gb = value if value is not None else (None, None)
+            self.do(lambda: (setattr(o.real, "ga", ga), setattr(o.real, "gb", gb)))
+            o.vals.update(ga=ga, gb=gb)
+        else:
+            self.do(lambda: setattr(o.real, attr, value))
+            o.vals[attr] = value
+        self.touch("set", o)
+
+    def op_ucode(self, a, b, c):
+        """assign a UNIQUE value (single column or composite pair) to an in-session object"""
+        o = self.pick(self.pool(lambda o: self.U.uniq(o.kind) and o.state in "PS"), a)
+        if o is None:
+            return self.op_set(a, b, c)
+        attr = "pair" if c % 2 else "code"
+        value = None if b % 6 == 0 else (self.PAIRS[b % 4] if attr == "pair" else self.CODES[b % 5])
+        ok = self._uniq_ok(o, attr, value)
+        if not ok:
+            return False
+        if ok == "handover":
+            self.classes.add("unique-handover-" + ("composite" if attr == "pair" else "single"))
+        self._set_uniq(o, attr, value)
+
+    def op_hand(self, a, b, c):
+        """hand-over inside one flush: a persistent row gives up a primary-key / UNIQUE value and a brand-new object of the
+        same class takes exactly that value (UPDATE before INSERT is what the unit of work does within a table)"""
+        m, U = self.model, self.U
+        if U.fam == "node":
+            return self.op_ucode(a, b, c)
+        modes = ["code", "pair"] + (["name"] if U.fam == "pct" and U.cfg["natpk"] else [])
+        for attr in modes[c % len(modes):] + modes[: c % len(modes)]:
+            if attr == "name":
+                holders = self.pool(lambda o: o.kind == "Parent" and o.state == "S" and m.rows.get(("Parent", o.uid), {}).get("name") == o.vals.get("name"))
+            else:
+                holders = self.pool(lambda o: U.uniq(o.kind) and o.state == "S" and self._uval(o.vals, attr) is not None
+                                    and self._uval(m.rows.get((U.root(o.kind), o.uid), {}), attr) == self._uval(o.vals, attr))
+            y = self.pick(holders, a)
+            if y is None or not self.room():
+                continue
+            value = self._uval(y.vals, attr) if attr != "name" else y.vals["name"]
+            if attr == "name":
+                if y.idx in self.ks_depth and self.ks_depth[y.idx] < len(self.nested):
+                    continue  # (known finding: second key switch in a deeper savepoint)
+                if m.stack[0]["states"].get(y.idx, "T") in "TP":
+                    continue  # (known finding: key switch of a row inserted in this transaction)
+                if U.cfg["natpk"] == "passive" and (m.children_of(y) or any(r.get("parent") == y.uid for k, r in m.rows.items() if k[0] == "Child")):
+                    # ON UPDATE CASCADE would move the children's rows to the new name while a child re-parented to the
+                    # taker keeps the (textually unchanged) old name in memory: only childless rows hand their key over
+                    continue
+                if U.has_o2m and not U.cfg["autoflush"] and "children" not in y.real.__dict__:
+                    self.do(lambda: y.real.children)
+                m.name_ctr += 1
+                fresh = f"k{m.name_ctr}"
+                self.do(lambda: setattr(y.real, "name", fresh))
+                y.vals["name"] = fresh
+                self.touch("pk", y)
+                self._create("Parent", b, c, True, name=value)
+                self.classes.add("unique-handover-pk")
+            else:
+                # the old holder switches to None or to another free value
+                repl = None
+                if b % 2:
+                    cands = self.PAIRS if attr == "pair" else self.CODES
+                    repl = next((v for v in cands if v != value and self._uniq_ok(y, attr, v) is True), None)
+                self._set_uniq(y, attr, repl)
+                uq = {"ga": value[0], "gb": value[1]} if attr == "pair" else {"code": value}
+                self._create(y.kind, b, c, True, uniq=uq)
+                self.classes.add("unique-handover-" + ("composite" if attr == "pair" else "single"))
+            return True
+        return False
 
     def _add(self, o):
         self.do(lambda: self.session.add(o.real))
@@ -1121,6 +1280,8 @@ class Interp:
         return True
 
     def _can_unparent_for_move(self, c):
+        if self.U.casc_orphan and c.state in "TP" and any(q.fav is c and not q.dead for q in self.model.objs):
+            return False  # would leave the session (pending orphan) while a holder still names it as favourite
         return not (self.U.casc_orphan and c.state == "P" and self.U.casc_expunge and self.model.children_of(c))
 
     def op_append(self, a, b, c):
@@ -1374,6 +1535,12 @@ class Interp:
         if o.state != "S":
             return False
         row0 = m.rows.get((U.root(o.kind), o.uid))
+        if row0 is not None and U.uniq(o.kind):
+            for attr in ("code", "pair"):
+                v = self._uval(row0, attr)
+                if v is not None and any(z is not o and not z.dead and U.root(z.kind) == U.root(o.kind) and z.state in "TPSX"
+                                         and self._uval(z.vals, attr) == v for z in m.objs):
+                    return False  # DELETEs come last: "delete the row holding v + insert a row with v" in one flush is a documented limitation
         if row0 is not None and "name" in row0 and row0["name"] != o.vals.get("name"):
             return False  # key switched but not flushed, then deleted: a void combination (see report: post_update uses the new key)
         seen = seen or set()
@@ -1482,6 +1649,8 @@ class Interp:
         m = self.model
         if o.stale or o.parent is not None or o.tags or o.fav is not None:
             return False
+        if any(g.ghost_of is o for g in m.objs):
+            return False  # its loaded collection may still hold deleted objects (documented until expiry); a later add() would cascade onto them
         if m.children_of(o) or m.items_of(o) or any(q.fav is o for q in m.objs):
             return False
         key = (self.U.root(o.kind), o.uid)
@@ -1505,6 +1674,8 @@ class Interp:
         o = self.pick(self.pool(lambda o: o.state in "PS" and self._isolated(o)), a)
         if o is None:
             return False
+        if o.state == "P" and self.U.uniq(o.kind) and any(o.vals.get(k) is not None for k in ("code", "ga", "gb")):
+            return False  # (out-of-session objects carry no UNIQUE values in this universe)
         if o.state == "S":
             self._flush_if_dirty()
             if not (o.state == "S" and self._isolated(o)):
@@ -1922,7 +2093,7 @@ class Interp:
             if o.dead or o.state not in "PS":
                 continue
             d = o.real.__dict__
-            for attr in U.scalars(o.kind):
+            for attr in U.scalars(o.kind) + (["code", "ga", "gb"] if U.uniq(o.kind) else []):
                 if attr in d and d[attr] != o.vals.get(attr):
                     self.viol(f"memory/{attr}", f"after {where}: loaded {o}.{attr}={d[attr]!r}, model {o.vals.get(attr)!r}")
             if "name" in o.vals and "name" in d and d["name"] != o.vals["name"]:
@@ -2002,6 +2173,8 @@ class Interp:
             for root in exp["rows"]:
                 for r in s2.execute(select(U.classes[root])).scalars().all():
                     row = {"cls": type(r).__name__, "val": r.val}
+                    if U.uniq(root):
+                        row.update(code=r.code, ga=r.ga, gb=r.gb)
                     if root == "Parent":
                         if U.cfg["natpk"]:
                             row["name"] = r.name
@@ -2073,7 +2246,7 @@ def _classify(diffs):
         return "row-unexpected"
     if d.startswith("child_tag"):
         return "association-rows"
-    for k in ("parent", "fav", "name", "extra", "val", "cls", "_children", "_items"):
+    for k in ("parent", "fav", "name", "extra", "val", "cls", "code", "ga", "gb", "_children", "_items"):
         if f" {k}: " in d or f", {k}: " in d:
             return f"column-{k}"
     return "other"
